@@ -94,6 +94,8 @@ impl SweepJob {
             let ki = spec.params.get("catcher")?.as_u64()? as usize;
             let (label, text) = carriers::program(ci, ki)?;
             let mut sc = Scenario::standard(&text, Limits::calibration());
+            // random-consuming natives are carriers too (the random source is a double)
+            sc.perms[3] = Some(true);
             sc.label = format!("C06 {label}");
             sc
         } else {
